@@ -1043,8 +1043,9 @@ func (g *Gen) runDefers() {
 		}
 		con.Used = true
 		var args []Val
-		for _, a := range argVals {
-			args = append(args, g.val(a))
+		for i, a := range argVals {
+			// like a direct call: an interior address (&s.pool) may be passed to a callee that only needs the place
+			args = append(args, g.argVal(a, con, names, i))
 		}
 		var rt types.Type
 		if sig, ok := cc.Value.Type().Underlying().(*types.Signature); ok && sig.Results().Len() > 0 {
